@@ -102,23 +102,49 @@ def opsExtra : Handler := fun st toks =>
   | "tfrom_iter_ref" :: d :: vs => do
     let i ← parseTSlot 't' d; let vs ← parseNatsMax 18446744073709551615 vs
     pure (st.setT i ⟨Treemap.fromIter vs, Spec.extend [] vs⟩, "ok")
+  | "tfrom_arr" :: d :: vs => do
+    -- iter.rs:439 `From<[u64; N]>` = `RoaringTreemap::from_iter(arr)`
+    let i ← parseTSlot 't' d; let vs ← parseNatsMax 18446744073709551615 vs
+    if vs.length > 4 then none else
+    pure (st.setT i ⟨Treemap.fromIter vs, Spec.extend [] vs⟩, "ok")
+  | "tcollect_bitmaps" :: d :: items => do
+    -- iter.rs:611 `FromIterator<(u32, RoaringBitmap)>` = `Self::from_bitmaps(iterator)`
+    let i ← parseTSlot 't' d; let items ← parseKeyed st items
+    let m := Treemap.fromBitmaps (items.map fun p => (p.1, p.2.m))
+    let s := Spec.fromBitmaps (items.map fun p => (p.1, p.2.s))
+    pure (st.setT i ⟨m, s⟩, "ok")
+  | ["tfor_ref", d] => do
+    -- iter.rs:421 `IntoIterator for &RoaringTreemap` = `self.iter()`, consumed by a `for` loop (`next()` until `None`)
+    let (_, sl) ← t? d
+    let r := jDrain false (sl.s.length + 1000) (.borrowed (TIter.Iter.new sl.m)) 0 fnvBasis
+    pure (st, specMark s!"n={r.2.1} h={hex64 r.2.2.toNat}" s!"n={sl.s.length} h={hex64 (sl.s.foldl fnvStep fnvBasis).toNat}")
   | ["jfold", k] => do
-    -- `Iterator::fold` of the treemap iterators = the remaining elements front to back (the iterator is consumed)
+    -- `Iterator::fold` consumes the iterator (the slot is emptied, as in the harness).  `treemap::Iter` does not
+    -- override it: core's default `while let Some(x) = self.next()` (`jDrain`).  `treemap::IntoIter::fold`
+    -- (iter.rs:328) is the specialised `FlattenCompat::fold` over `To64IntoIter::fold`: `TIter.IntoIter.fold`.
     let (i, js) ← j? k
-    let r := jDrain false (js.s.length + 1000) js.m 0 fnvBasis
+    let step := fun (a : Nat × UInt64) (v : Nat) => (a.1 + 1, fnvStep a.2 v)
+    let r : Nat × UInt64 := match js.m with
+      | .borrowed _ => (jDrain false (js.s.length + 1000) js.m 0 fnvBasis).2
+      | .owned it => it.fold (0, fnvBasis) step
     let q := (js.s.length, js.s.foldl fnvStep fnvBasis)
-    pure (st.setJ i ⟨r.1, []⟩, specMark s!"n={r.2.1} h={hex64 r.2.2.toNat}" s!"n={q.1} h={hex64 q.2.toNat}")
+    pure ({ st with jt := st.jt.set! i none }, specMark s!"n={r.1} h={hex64 r.2.toNat}" s!"n={q.1} h={hex64 q.2.toNat}")
   | ["jrfold", k] => do
+    -- `DoubleEndedIterator::rfold`: default `next_back()` loop for `treemap::Iter`, iter.rs:344 for `IntoIter`
     let (i, js) ← j? k
-    let r := jDrain true (js.s.length + 1000) js.m 0 fnvBasis
+    let step := fun (a : Nat × UInt64) (v : Nat) => (a.1 + 1, fnvStep a.2 v)
+    let r : Nat × UInt64 := match js.m with
+      | .borrowed _ => (jDrain true (js.s.length + 1000) js.m 0 fnvBasis).2
+      | .owned it => it.rfold (0, fnvBasis) step
     let q := (js.s.length, js.s.reverse.foldl fnvStep fnvBasis)
-    pure (st.setJ i ⟨r.1, []⟩, specMark s!"n={r.2.1} h={hex64 r.2.2.toNat}" s!"n={q.1} h={hex64 q.2.toNat}")
+    pure ({ st with jt := st.jt.set! i none }, specMark s!"n={r.1} h={hex64 r.2.toNat}" s!"n={q.1} h={hex64 q.2.toNat}")
   | ["jlen", k] => do
-    -- `ExactSizeIterator::len` exists for `treemap::IntoIter` only (= `size_hint().0`)
+    -- `ExactSizeIterator::len` (64-bit targets): `treemap::Iter` iter.rs:305 = `self.size_hint().0`;
+    -- `treemap::IntoIter` iter.rs:353 = `self.size_hint as usize`
     let (_, js) ← j? k
     match js.m with
-    | .borrowed _ => pure (st, "na")
-    | .owned it => pure (st, specMark (toString it.sizeHintPair.1) (toString js.s.length))
+    | .borrowed it => pure (st, specMark (toString it.sizeHint) (toString js.s.length))
+    | .owned it => pure (st, specMark (toString it.exactLen) (toString js.s.length))
   | _ => none
 
 end Roaring.Driver
